@@ -44,19 +44,24 @@ PERSIST_READS = ("::get_", "::enter", "::prepare", "::commit", "::on_initial_res
 
 # (function, site, exit-line-independent tag) -> reason.  Infeasible pairs established by reading.
 EXCEPTIONS = {
-    (LS + "channel::Channel::revoke_previous_holder_commitment", "take"):
+    # (function, mutation site, cause of the refusal exit) -> reason.  Infeasible pairs established by reading; one
+    # pair each: the same site followed by any *other* refusal is still reported.
+    (LS + "channel::Channel::revoke_previous_holder_commitment", "take", "call:advance_holder_commitment_state"):
         "take() happens only on the branch new_current == next_holder_commit_num with info present; under that condition "
         "set_next_holder_commit_num's progression check (num == current + 1) holds and get_per_commitment_secret(n-1) "
         "satisfies n-1+2 <= n+1, so advance_holder_commitment_state cannot fail afterwards",
-    (LS + "channel::Channel::revoke_previous_holder_commitment", "advance_holder_commitment_state"):
+    (LS + "channel::Channel::revoke_previous_holder_commitment", "advance_holder_commitment_state", "call:advance_holder_commitment_state"):
         "same condition: after the counter moved to n+1 the secret bound for n-1 and the point bound for n+1 hold, so the "
         "release inside advance_holder_commitment_state cannot fail",
-    (LS + "channel::Channel::activate_initial_commitment", "take"):
+    (LS + "channel::Channel::activate_initial_commitment", "take", "call:take"):
         "the Err exit is the else-arm of `if let Some(..) = take()`: it is taken only when take() returned None, i.e. "
         "when it changed nothing",
-    (LS + "channel::Channel::sign_holder_commitment_tx_for_recovery", "channel_closed"):
-        "the exits after the flag are internal errors of public-key tweak arithmetic (derive_public_revocation_key / "
-        "get_unilateral_close_key) on keys the signer derived itself; they do not depend on the request",
+    (LS + "channel::Channel::sign_holder_commitment_tx_for_recovery", "channel_closed", "call:derive_public_revocation_key"):
+        "the exit is an internal error of public-key tweak arithmetic on keys the signer derived itself; it does not "
+        "depend on the request",
+    (LS + "channel::Channel::sign_holder_commitment_tx_for_recovery", "channel_closed", "call:get_unilateral_close_key"):
+        "the exit is an internal error of public-key tweak arithmetic on keys the signer derived itself; it does not "
+        "depend on the request",
 }
 
 
@@ -115,19 +120,20 @@ def r101(ctx):
         bad = {}
         for (bi, cs, desc, ln), x in pairs:
             tag = site_tag(desc)
-            if (b.name, tag) in EXCEPTIONS:
-                ctx.sample("R10.1", f"{b.name}/{tag}", f"{b.file}:{ln}", "exception: " + EXCEPTIONS[(b.name, tag)])
+            cause = effects.exit_cause(fv, x)
+            if (b.name, tag, cause) in EXCEPTIONS:
+                ctx.sample("R10.1", f"{b.name}/{tag}/{cause}", f"{b.file}:{ln}", "exception: " + EXCEPTIONS[(b.name, tag, cause)])
                 continue
-            bad.setdefault((tag, tuple(sorted(cs)), desc, ln), []).append(x["line"])
+            bad.setdefault((tag, tuple(sorted(cs)), desc, ln, cause), []).append(x["line"])
         if not sites:
             continue
         if not bad:
             ctx.ob("R10.1", True, f"{b.name}/atomic", "", where=f"{b.file}:{b.line}",
                    sample=f"{len(sites)} mutation sites, none reaches a refusal exit")
-        for (tag, cs, desc, ln), xl in bad.items():
-            ctx.ob("R10.1", False, f"{b.name}/{tag}/then-refusal",
+        for (tag, cs, desc, ln, cause), xl in bad.items():
+            ctx.ob("R10.1", False, f"{b.name}/{tag}/then-refusal/{cause}",
                    f"`{b.name}` changes {list(cs)} ({desc}, line {ln}) and can still refuse the request afterwards "
-                   f"(error exits at lines {sorted(set(xl))[:5]}): the refused request is not side-effect free",
+                   f"({cause}; error exits at lines {sorted(set(xl))[:5]}): the refused request is not side-effect free",
                    where=f"{b.file}:{ln}")
     ctx.floor("R10.1", "mutation sites in entry points", nsites, 45)
 
